@@ -35,7 +35,7 @@ func init() {
 					if p.Family == "WriteStringList" && p.TArgs[1] != "uint8" {
 						continue
 					}
-					if p.TArgs[0] == "uint32" || (p.TArgs[0] == "uint16" && !c.thorough()) {
+					if p.TArgs[0] == "uint32" {
 						continue
 					}
 					mx := int(prefixMax(p.TArgs[0]))
@@ -62,7 +62,7 @@ func init() {
 						case "pstr":
 							items = append(items, Item{ID: fmt.Sprintf("msgtext:%s.%s.%s", mod, tn, f.Go), Run: func(c *Ctx) { c18msgText(c, mod, tn, i) }})
 						case "list_basic", "list_fixstr", "list_pstr", "list_obj":
-							if c.thorough() && f.Count == "uint16" {
+							if f.Count == "uint16" {
 								items = append(items, Item{ID: fmt.Sprintf("msglist:%s.%s.%s", mod, tn, f.Go), Run: func(c *Ctx) { c18msgList(c, mod, tn, i) }})
 							}
 						}
